@@ -776,7 +776,7 @@ namespace vt
    // kind the rule has in family F (F = 1..7; family 0 is tao::pegtl::nothing):
    //   0 none, 1 void apply, 2 void apply0, 3 bool apply (veto iff (len+vid)%3==0),
    //   4 bool apply0 (veto iff vid%3==0), 5 apply throwing foreign_error iff (len+vid)%3==0,
-   //   6 apply throwing parse_error iff (len+vid)%3==0
+   //   6 apply throwing parse_error iff (len+vid)%3==0, 7 void apply0 throwing foreign_error iff vid%3==0
    // The action bodies do nothing else: all logging happens in the control's apply/apply0.
 
    template< typename Rule, int F, typename = void >
@@ -905,6 +905,18 @@ namespace vt
          const bool r = ( N % 3 ) != 0;
          log_i0( N, r ? 1 : 2 );
          return r;
+      }
+   };
+
+   template< typename Rule >
+   struct act_body< Rule, 7 >
+   {
+      template< typename... St >
+      static void apply0( St&&... /*unused*/ )
+      {
+         if( ( vid_of< Rule > % 3 ) == 0 ) {
+            throw foreign_error{ vid_of< Rule > };
+         }
       }
    };
 
